@@ -502,10 +502,18 @@ class Engine:
 
 
 class Frame:
-    def __init__(self, module, env, closure):
+    def __init__(self, module, env, closure, func=None):
         self.module = module
         self.env = env
         self.closure = closure
+        self.func = func
+
+
+class SuperV:
+    """zero-argument super() inside a method: attribute lookup continues in the MRO after the defining class"""
+
+    def __init__(self, obj, after):
+        self.obj, self.after = obj, after
 
 
 def simplify_under(v, pc):
@@ -711,7 +719,7 @@ class Exec:
 
     def call_funcv(self, f, args, kwargs):
         env = self.bind_args(f, args, kwargs)
-        fr = Frame(f.module, env, f.closure)
+        fr = Frame(f.module, env, f.closure, f)
         self.frames.append(fr)
         try:
             for k, v in list(env.items()):
@@ -894,6 +902,11 @@ class Exec:
         else:
             self.exec_block(st.orelse)
 
+    def st_Assert(self, st):
+        c = self.eval(st.test)
+        if not self.truth(c):
+            raise Raised("AssertionError")
+
     def st_Raise(self, st):
         if st.exc is None:
             raise OutOfSubset("bare raise")
@@ -949,7 +962,7 @@ class Exec:
         # `with warnings.catch_warnings():` only
         for it in st.items:
             src = ast.unparse(it.context_expr)
-            if not src.startswith("warnings."):
+            if not (src.startswith("warnings.") or src.startswith("np.errstate(") or src.startswith("numpy.errstate(")):
                 raise OutOfSubset(f"with {src}")
         self.exec_block(st.body)
 
@@ -1240,6 +1253,16 @@ class Exec:
         return self.getattr(o, e.attr)
 
     def getattr(self, o, name):
+        if isinstance(o, SuperV):
+            cls_of = o.obj if isinstance(o.obj, ClassV) else o.obj.cls
+            mro = cls_of.mro()
+            if o.after not in mro:
+                raise OutOfSubset("super(): object is not an instance of the defining class")
+            for c in mro[mro.index(o.after) + 1:]:
+                if name in c.methods:
+                    m = c.methods[name]
+                    return m.bind(o.obj) if isinstance(m, FuncV) else m
+            raise Raised("AttributeError", name)
         if isinstance(o, ObjV):
             if name in o.fields:
                 return o.fields[name]
@@ -1351,7 +1374,23 @@ class Exec:
             left = right
         return result
 
+    def zero_arg_super(self):
+        fr = self.frames[-1]
+        while fr is not None and (fr.func is None or isinstance(fr.func.node, ast.Lambda)):
+            fr = fr.closure
+        if fr is None or ":" not in fr.func.qualname or "." not in fr.func.qualname.split(":")[1]:
+            raise OutOfSubset("super() outside a method")
+        mod, path = fr.func.qualname.split(":")
+        owner = self.eng.cls(mod + ":" + path.rsplit(".", 1)[0])
+        a = fr.func.node.args
+        params = [p.arg for p in a.posonlyargs + a.args]
+        if not isinstance(owner, ClassV) or not params or params[0] not in fr.env:
+            raise OutOfSubset("super() outside a method")
+        return SuperV(fr.env[params[0]], owner)
+
     def ev_Call(self, e):
+        if isinstance(e.func, ast.Name) and e.func.id == "super" and not e.args and not e.keywords:
+            return self.zero_arg_super()
         f = self.eval(e.func)
         args = []
         for a in e.args:
